@@ -411,7 +411,18 @@ func ruleArm(c *Ctx) {
 		}
 		return false
 	}
-	ok, bad := reg.BeforeDeep(armedCalls, isSend)
+	armed := func(ins ssa.Instruction) bool {
+		if armedCalls(ins) {
+			return true
+		}
+		// the extension attempt itself, wherever it lives: the comparison of the new deadline with the recorded one
+		cl, isC := ins.(*ssa.Call)
+		if !isC || eng.CalleeName(&cl.Call) != "(time.Time).After" {
+			return false
+		}
+		return p.AnyFrom(cl.Call.Args[1], eng.Plain, func(v ssa.Value) bool { return eng.IsFieldLoad(v, m.connT, m.dlField) })
+	}
+	ok, bad := reg.BeforeDeep(armed, isSend)
 	c.Check("ARM", short(wt)+":deadline-extended-before-send", p.Pos(wt.Pos()), ok, fmt.Sprintf("a datagram can be sent through the association (%s) without the deadline hook having run first (e.g. only after a successful send): an association whose first send fails never gets a deadline and is never reclaimed", p.IPos(bad)))
 	_ = isExt
 	// the hook is given the destination address of this write (or something computed from it)
